@@ -51,3 +51,21 @@ CONTRACTS[F + "find_bin_boundaries"] = dict(
         "len(flat_csum) == len(flat)",
     ])},
 )
+
+
+def _gen_intervals(rng):
+    import pandas as pd
+    n = rng.choice([1, 1, 2, 3, 4])
+    start = rng.choice([0.0, 1.0, -2.0])
+    breaks = [start]
+    for _ in range(n):
+        breaks.append(breaks[-1] + rng.choice([0.5, 1.0, 2.0]))
+    lo = rng.choice([float("-inf"), breaks[0] - 1.0, breaks[0], breaks[0] + 0.25])
+    hi = rng.choice([float("inf"), breaks[-1] + 1.0, breaks[-1], breaks[-1] - 0.25])
+    if lo > hi:
+        lo, hi = hi, lo
+    return dict(my_interval_index=pd.IntervalIndex.from_breaks(breaks), absolute_range=(lo, hi))
+
+
+CONTRACTS[F + "expand_boundaries"]["gen_all"] = _gen_intervals
+CONTRACTS[F + "add_outier_bins"]["gen_all"] = _gen_intervals
